@@ -209,6 +209,43 @@ class Check:
                 self.broken.append("theorem %s: %s" % (n, "not checked" if r is None else "assumes %s" % r))
         return res
 
+    SRC_TIES = {
+        "parser": ("GenParserFn.v", "gen_pnv_understood", "props/SrcParser.vo", "DSP.SrcParser",
+                   ["Src_parser_body", "Src_parser_parse_next_value"],
+                   "duckscript/src/parser.rs::parse_next_value"),
+        "expand": ("GenExpandFn.v", "gen_expand_understood", "props/SrcExpand.vo", "DSP.SrcExpand",
+                   ["Src_expand_step", "Src_expand_by_wrapper"],
+                   "duckscript/src/expansion.rs::{should_break_key, push_prefix, expand_by_wrapper}"),
+    }
+
+    def source_tie(self, which):
+        """Translation tie (lib/rs2v.py): the hand-written model function is proved EQUAL to the Gallina translation of
+        the current Rust source, regenerated on this run.  When the translator does not understand the source any more
+        the tie is reported inactive (the correspondence run remains the tie) — that alone is not an alarm."""
+        gen, flag, target, mod, thms, what = self.SRC_TIES[which]
+        try:
+            text = open(os.path.join(ROOT, "coq", "generated", gen)).read()
+        except OSError:
+            text = ""
+        understood = re.search(r"Definition %s : bool := true\." % flag, text) is not None
+        info = self.coverage.setdefault("source_translation", {})
+        if not understood:
+            m = re.search(r"\(\* NOT UNDERSTOOD: (.*?) \*\)", text, re.S)
+            why = m.group(1) if m else "generated file missing"
+            info[which] = {"function": what, "active": False, "reason": why}
+            print("NOTE: property=%s translation tie for %s is inactive on this tree (translator: %s); "
+                  "the correspondence run is the only tie for it in this run" % (self.prop, what, why), flush=True)
+            return False
+        ok, _ = self.coq_build([target])
+        if ok:
+            self.print_assumptions([mod], ["%s.%s" % (mod, t) for t in thms])
+        else:
+            for t in thms:
+                self.obligations.append("%s.%s" % (mod, t))
+        info[which] = {"function": what, "active": True, "theorems": thms,
+                       "meaning": "the model function equals the mechanical translation of the current source for all inputs"}
+        return ok
+
     def coqchk(self, timeout=1500):
         """thorough tier: re-check props/Cxx.vo and everything it depends on with the independent checker and
         record the axioms it reports"""
